@@ -612,6 +612,7 @@ class Tree:
         self._files: Dict[str, FileIndex] = {}
         self._text: Dict[str, str] = {}
         self.read_log: Dict[str, str] = {}  # rel path -> sha256 (evidence)
+        self.normalised: Dict[str, bool] = {}  # files whose local names were renamed back to the baseline spelling
         self._all: Optional[List[str]] = None
 
     def with_overlay(self, overlay: Dict[str, str]) -> "Tree":
@@ -636,8 +637,19 @@ class Tree:
                     s = f.read()
             except FileNotFoundError:
                 raise AnalysisError("anchor-vanished", f"file {rel} does not exist")
-        self._text[rel] = s
         self.read_log[rel] = hashlib.sha256(s.encode()).hexdigest()[:16]
+        # alpha-normalise local names of the functions the rules analyse (a pure rename must not change a verdict)
+        try:
+            from .normalize import normalise_file
+            n = normalise_file(rel, s, lex, FileIndex)
+        except AnalysisError:
+            raise
+        except Exception:
+            n = None
+        if n is not None:
+            self.normalised[rel] = True
+            s = n
+        self._text[rel] = s
         return s
 
     def exists(self, rel: str) -> bool:
